@@ -90,7 +90,8 @@ structure Dev where
   conn : Nat := 0                        -- 0 NOT_CONNECTED, 1 CONNECTING, 2 CONNECTED
   loggedIn : Bool := false
   fd : Option Nat := none                -- dev->fd; may be stale (F6)
-  curAddr : Bool := true                 -- tcp->cur != NULL (single address)
+  naddr : Nat := 1                       -- length of tcp->addrs (what getaddrinfo gave; tcp_create exits on an empty list)
+  cur : Option Nat := some 0             -- tcp->cur as an index into tcp->addrs; none = NULL (list exhausted)
   tstate : Nat := 0                      -- telnet: 0 NONE, 1 CMD, 2 OPT
   tcmd : UInt8 := 0
   statConnects : Nat := 0
@@ -219,6 +220,9 @@ structure StepR where
 
 def topCtx (a : Action) : ExecCtx := a.exec.headD default
 def setTop (a : Action) (e : ExecCtx) : Action := { a with exec := e :: a.exec.drop 1 }
+
+/-- `xregex_match_recycle(dev->xmatch)`: `xm_str := NULL; xm_result := -1; xm_used := false` (the offsets array is left as it is) -/
+def recycle (d : Dev) : Dev := { d with xmStr := none, xmResult := false, xmUsed := false }
 
 /-- `_process_expect` -/
 def stmtExpect (d : Dev) (a : Action) (o : Oracle) (pat : Nat) : StepR :=
@@ -415,7 +419,8 @@ def finishConnectOne (c : CS) : CS × Bool :=
     else (c, false)
   | [] => ({ c with sys := c.sys ++ [.abort "no SO_ERROR answer"], aborted := true }, false)
 
-/-- `tcp_connect_one` on the single address -/
+/-- `tcp_connect_one` on the current address: `socket`, `setsockopt`, `nonblock_set`, `connect` → 0 (then `SO_ERROR` decides) /
+    EINPROGRESS / error; on every failure the socket just opened is closed -/
 def connectOne (c : CS) : CS × Bool :=
   match c.env.sockets, c.env.connects with
   | fd :: fr, ans :: ar =>
@@ -428,16 +433,29 @@ def connectOne (c : CS) : CS × Bool :=
     else ({ c with sys := c.sys ++ [.close fd], dev := { c.dev with fd := none } }, false)   -- close(dev->fd); dev->fd = NO_FD
   | _, _ => ({ c with sys := c.sys ++ [.abort "no socket/connect answer"], aborted := true }, false)
 
-/-- `tcp_connect` -/
+/-- `cur->ai_next` in a list of `naddr` addresses -/
+def aiNext (naddr i : Nat) : Option Nat := if i + 1 < naddr then some (i + 1) else none
+
+/-- `while (tcp->cur && !tcp_connect_one(dev, tcp->cur)) tcp->cur = tcp->cur->ai_next;`
+    Structurally recursive on a fuel argument: the loop makes at most one iteration per address (`naddr` of them, the fuel
+    both callers give); with the fuel used up the list is exhausted (`Pm/CurInv.lean`, `connectWalk_fuel`: with `cur` inside the
+    list and `naddr` fuel the last clause is reached only with `cur = NULL` already). -/
+def connectWalk : Nat → CS → CS
+  | 0, c => { c with dev := { c.dev with cur := none } }
+  | fuel + 1, c =>
+    match c.dev.cur with
+    | none => c
+    | some i =>
+      if (connectOne c).2 then (connectOne c).1
+      else connectWalk fuel { (connectOne c).1 with dev := { (connectOne c).1.dev with cur := aiNext c.dev.naddr i } }
+
+/-- `tcp_connect`: every attempt starts over at the first address (fix b7c4c70) -/
 def tcpConnect (c : CS) : CS × Bool :=
   if c.dev.conn != 0 then ({ c with sys := c.sys ++ [.abort "assert connect_state == NOT_CONNECTED"], aborted := true }, false) else
   if c.dev.fd.isSome then ({ c with sys := c.sys ++ [.abort "assert fd == NO_FD"], aborted := true }, false) else
-  let c := { c with dev := { c.dev with conn := 1, curAddr := true } }    -- tcp->cur = tcp->addrs
-  let c := if c.dev.curAddr then
-      let (c, ok) := connectOne c
-      if ok then c else { c with dev := { c.dev with curAddr := false } }     -- cur = cur->ai_next (= NULL)
-    else c
-  let c := if !c.dev.curAddr then { c with dev := { c.dev with conn := 0 } } else c
+  let c := { c with dev := { c.dev with conn := 1, cur := some 0 } }    -- tcp->cur = tcp->addrs
+  let c := connectWalk c.dev.naddr c
+  let c := if c.dev.cur.isNone then { c with dev := { c.dev with conn := 0 } } else c   -- "connection refused"
   (c, c.dev.conn == 2)
 
 /-- `pipe_connect`: socketpair, fork, the parent closes its half of the child's end; connected at once -/
@@ -525,6 +543,23 @@ def clipRead (c : CS) : CS :=
              dev := { c.dev with fromSize := (devReadPlan c.dev r).2.1, fromBuf := c.dev.fromBuf.drop (devReadPlan c.dev r).2.2 } }
   | none => c
 
+/-- `close(dev->fd); dev->fd = NO_FD` -/
+def closeFd (c : CS) : CS :=
+  match c.dev.fd with
+  | some fd => { c with sys := c.sys ++ [Sys.close fd], dev := { c.dev with fd := none } }
+  | none => c
+
+/-- `tcp_finish_connect` when `SO_ERROR` reports a failure: `close(dev->fd); dev->fd = NO_FD; tcp->cur = tcp->cur->ai_next;` the
+    walk goes on with the remaining addresses; `cur == NULL` afterwards: `DEV_NOT_CONNECTED` ("connection refused") -/
+def finishConnectFail (c : CS) : CS :=
+  match (closeFd c).dev.cur with
+  | none =>       -- `tcp->cur->ai_next` with `cur == NULL` (never: CONNECTING implies `cur != NULL`, `Pm/CurInv.lean`): the process is gone
+    { closeFd c with sys := (closeFd c).sys ++ [Sys.abort "tcp->cur == NULL in tcp_finish_connect"], aborted := true,
+                     dev := { (closeFd c).dev with conn := 0 } }
+  | some i =>
+    let c := connectWalk (closeFd c).dev.naddr { closeFd c with dev := { (closeFd c).dev with cur := aiNext (closeFd c).dev.naddr i } }
+    if c.dev.cur.isNone then { c with dev := { c.dev with conn := 0 } } else c
+
 /-- `_handle_ready_device`: returns ioerr -/
 def handleReady (c : CS) : CS × Bool :=
   let f := c.env.revents
@@ -535,11 +570,10 @@ def handleReady (c : CS) : CS × Bool :=
   let (c, ioerr, skipRead) :=
     if f &&& 2 != 0 then
       if c.dev.conn == 1 then
+        -- `assert(dev->finish_connect != NULL)`: only a tcp device has the method (a coprocess is connected at once, never CONNECTING)
+        if c.dev.isPipe then ({ c with sys := c.sys ++ [.abort "assert finish_connect != NULL"], aborted := true }, false, true) else
         let (c, ok) := finishConnectOne c
-        let c := if ok then c else
-          match c.dev.fd with     -- close(dev->fd); dev->fd = NO_FD; next address: none
-          | some fd => { c with sys := c.sys ++ [.close fd], dev := { c.dev with fd := none, curAddr := false, conn := 0 } }
-          | none => { c with dev := { c.dev with curAddr := false, conn := 0 } }
+        let c := if ok then c else finishConnectFail c
         if c.dev.conn == 0 then (c, true, true)
         else if c.dev.conn == 2 then ({ c with dev := enqueueLogin c.dev }, false, true)
         else (c, false, true)
@@ -613,13 +647,13 @@ abbrev PA := CS × Oracle × List Out × Option Time
 
 def hasAbort (l : List Out) : Bool := l.any fun x => match x with | .abortAssert _ => true | _ => false
 
-/-- error branch of `_process_action`: the head and everything queued behind it are completed with an error,
-    then — if connected — `_reconnect` and leave the loop -/
+/-- error branch of `_process_action`: the head and everything queued behind it are completed with an error (the match object is
+    recycled when the head is destroyed: fix e0ac8ce), then — if connected — `_reconnect` and leave the loop -/
 def failAll (rest : List Action) (c : CS) (a : Action) (o : Oracle) (out : List Out) (tmo : Option Time) : PA :=
   let res := a.errnum
   let fin := (if a.clientId != 0 then [Out.finish a.clientId res] else []) ++
     (rest.filter (·.clientId != 0)).map fun b => Out.finish b.clientId (if res == .expfail then .abort else res)
-  let c := { c with dev := { c.dev with acts := [] } }
+  let c := { c with dev := { c.dev with acts := [], xmStr := none, xmResult := false, xmUsed := false } }
   if c.dev.conn == 2 then
     let (c, tmo) := reconnectDev c tmo
     (c, o, out ++ fin, tmo)                                   -- break
@@ -655,7 +689,8 @@ def onRun (k : CS → Oracle → List Out → Option Time → PA) (rest : List A
     let a' := advance r.act
     if a'.exec.isEmpty then
       let fin := if a'.clientId != 0 then [Out.finish a'.clientId .success] else []
-      let dev := { r.dev with acts := rest, loggedIn := r.dev.loggedIn || a'.com == 0, statActions := r.dev.statActions + 1 }
+      -- `_destroy_action(list_dequeue(dev->acts)); dev->stat_successful_actions++; xregex_match_recycle(dev->xmatch)` (fix e0ac8ce)
+      let dev := { r.dev with acts := rest, loggedIn := r.dev.loggedIn || a'.com == 0, statActions := r.dev.statActions + 1, xmStr := none, xmResult := false, xmUsed := false }
       k { c with dev := dev } r.oracle (out ++ fin) tmo
     else k { c with dev := { r.dev with acts := a' :: rest } } r.oracle out tmo
   else failAll rest { c with dev := r.dev } r.act r.oracle out tmo
